@@ -414,6 +414,7 @@ package router
 //@   requires cfg != nil
 //@   modifies nothing
 //@   ensures (err == nil) == (c != nil)
+//@   ensures err == nil ==> fresh(c) && c.NextProtos == nil
 //@   ensures [C17:listener-needs-certificate] requireCert && (cfg.Cert == "" || cfg.Key == "") && !cfg.DebugUseTempCert ==> err != nil
 //@   ensures [C17:verification-on-unless-disabled] err == nil ==> c.InsecureSkipVerify == cfg.InsecureSkipVerify
 //@   ensures [C17:configured-ca-is-the-root-pool] err == nil ==> (len(cfg.CA) > 0 ? c.RootCAs != nil : c.RootCAs == nil)
@@ -557,3 +558,24 @@ package router
 //@   modifies *
 //@   ensures [C03:exactly-one-write] nAW == 1
 //@   callsite AsyncWrite: [C13:one-framed-write] len(arg1) >= 14 && len(arg1) - 2 <= 65535 && BE16(arg1, 0) == uint16(len(arg1) - 2)
+
+// ---- server_http_gohttp.go -------------------------------------------------------------------------------
+//@ func (r *router) listen(cfg *ServerConfig) (l net.Listener, err error)
+//@   trusted
+//@   modifies nothing
+//@   ensures err == nil ==> l != nil
+//@ func (r *router) subLoggerForServer(modName string, tag string) (l *zerolog.Logger)
+//@   trusted
+//@   modifies nothing
+//@   ensures l != nil
+
+// startHttpServer: the HTTP server never cuts a response off before the router's own request deadline (6 s) has
+// passed: it has no write time-out, or one longer than that; request headers are bounded.
+//@ func (r *router) startHttpServer(cfg *ServerConfig, useTls bool) (hs *http.Server, err error)
+//@   props C03 C17
+//@   requires r != nil && cfg != nil
+//@   modifies nothing
+//@   ensures (err == nil) == (hs != nil)
+//@   ensures [C03:response-not-cut-before-the-request-deadline] err == nil ==> hs.WriteTimeout == 0 || int(hs.WriteTimeout) > 6 * sec()
+//@   ensures [C01:bounded-request-headers] err == nil ==> hs.MaxHeaderBytes == 4096 && int(hs.ReadTimeout) > 0
+//@   callsite makeTlsConfig?: [C17:listener-requires-certificate] arg1 == true
